@@ -6,11 +6,13 @@ type RunningJob struct {
 }
 
 func (server *RunningJob) RequestStop() {
+	vh("job.request_stop", server.stop)
 	close(server.stop)
 }
 
 func (server *RunningJob) AwaitStop() {
 	<-server.closed
+	vh("job.await_return", server.stop)
 }
 
 func SpawnJob(start func(), shutdown func()) RunningJob {
@@ -18,7 +20,9 @@ func SpawnJob(start func(), shutdown func()) RunningJob {
 	closed := make(chan struct{})
 	go func() {
 		<-stop
+		vh("job.wake", stop)
 		shutdown()
+		vh("job.closing", stop)
 		close(closed)
 	}()
 	go start()
